@@ -201,6 +201,13 @@ def dedupOpt (rs : Prog) : Prog := rs.map dedupRule
 
 /-! ## The three pipelines (`control_plane.go`, `dns.go`, `daedns/router.go`) -/
 
+/-- the optimizer lists as written at the three call sites (checked against the source on every run) -/
+def trafficStages : List String :=
+  ["AliasOptimizer", "DatReaderOptimizer", "MergeAndSortRulesOptimizer", "DeduplicateParamsOptimizer"]
+
+def dnsStages : List String :=
+  ["DatReaderOptimizer", "MergeAndSortRulesOptimizer", "DeduplicateParamsOptimizer"]
+
 /-- traffic routing: alias → dat → merge-and-sort → dedup -/
 def trafficPipeline (g : Geo) (rs : Prog) : Option Prog :=
   (datOpt g (aliasOpt rs)).map fun e => dedupOpt (mergeSortOpt e)
@@ -262,6 +269,25 @@ def userSem {δ : Type} (S : Sem δ) (g : Geo) (aliasing : Bool) : Sem δ :=
     guard := fun n => S.guard (preName aliasing n)
     emptyVal := fun n => S.emptyVal (preName aliasing n)
     parseOut := S.parseOut }
+
+/-! ## Equality of programs up to the order and multiplicity of values and the order of conditions
+
+Used by the check when the real optimizers produce a *different AST* than the model: if the two
+programs are `nfEqP`, they mean the same (`Props.same_normal_form_same_meaning`), so a change of a
+sort order or of which duplicate is kept is not reported as a divergence. -/
+
+def sameParams (a b : List Param) : Bool := a.all b.contains && b.all a.contains
+
+def nfEqF (f f' : Func) : Bool := f.name == f'.name && f.neg == f'.neg && sameParams f.params f'.params
+
+def nfEqR (r r' : Rule) : Bool :=
+  r.funcs.all (fun f => r'.funcs.any (nfEqF f)) && r'.funcs.all (fun f' => r.funcs.any (fun f => nfEqF f f')) &&
+    decide (r.out = r'.out)
+
+def nfEqP : Prog → Prog → Bool
+  | [], [] => true
+  | r :: rs, r' :: rs' => nfEqR r r' && nfEqP rs rs'
+  | _, _ => false
 
 /-! ## Side conditions that appear in the property statements -/
 
